@@ -411,6 +411,14 @@ class Verdict:
         self.assumptions = []
         self.notes = []
         self.findings = load_findings()
+        rdir = os.path.join(VERIF, "evidence", "replays")
+        if os.path.isdir(rdir) and "--replay" not in sys.argv:
+            for fn in os.listdir(rdir):
+                if fn.startswith(pid + "-"):
+                    try:
+                        os.unlink(os.path.join(rdir, fn))
+                    except OSError:
+                        pass
 
     def violation(self, fkey, text, replay=None):
         """Report a property violation observed on the real code.  fkey is the stable key of the
